@@ -117,7 +117,7 @@ type CheckRun struct {
 }
 
 var stage2Props = map[string]bool{"C01": true, "C02": true, "C03": true, "C04": true, "C05": true, "C06": true, "C07": true, "C08": true,
-	"C09": true, "C10": true, "C11": true, "C12": true, "C13": true, "C14": true, "C16": true, "C19": true, "C20": true}
+	"C09": true, "C10": true, "C11": true, "C12": true, "C13": true, "C14": true, "C15": true, "C16": true, "C19": true, "C20": true}
 
 func cmdMain(args []string) int {
 	if len(args) < 2 {
